@@ -125,6 +125,11 @@ func (e *encRec) Encode(v any) error {
 	if e.fail {
 		return errInjected
 	}
+	// what the daemon's own writer (encoding/json) does with the event: an event that cannot be serialised
+	// is a write error there, so it is one here
+	if _, err := json.Marshal(ev); err != nil {
+		return fmt.Errorf("event cannot be serialised: %w", err)
+	}
 	return nil
 }
 
